@@ -180,14 +180,8 @@ func stream(c *Case, rng *rand.Rand) (frames [][]byte, err error) {
 		if (fc == 1 || fc == 2) && q.Qty > 125 {
 			q.Qty = uint16(1 + rng.Intn(125)) // the library's FC1/2 request parser refuses more (C09 known finding)
 		}
-		if fc == 16 && q.Qty > 121 || fc == 15 && q.Qty > 1900 {
-			q.Qty = 100
-			q.Data = libx.RandBytes(rng, map[int]int{15: 13, 16: 200}[fc])
-		}
-		if fc == 23 && q.WQty > 118 {
-			q.WQty = 100
-			q.Data = libx.RandBytes(rng, 200)
-		}
+		// (the largest legal write requests - 257..259 byte frames - stay in: FC16 up to 123 registers, FC15 up to 1968
+		// coils, FC23 up to 121 written registers are what LegalReq draws at most)
 		if fc <= 4 && len(c.FCs) > 1 && c.Kind != "all" && rng.Intn(8) == 0 {
 			// a read request the parser refuses (quantity 0): it is answered with an exception - once - and whatever
 			// follows it in the same read is still served
